@@ -367,6 +367,58 @@ fn mir_const_json<'tcx>(
       parts.push("\"promoted\":true".to_string());
     }
   }
+  // constants mentioned inside a promoted constant's body (e.g. `&Some(Ok(Instruction::Op(OP_RETURN)))`): their def paths
+  // and values make the content of an otherwise opaque promoted visible to the rules
+  if let mir::Const::Unevaluated(uv, _) = c.const_ {
+    if let Some(idx) = uv.promoted {
+      let pm = tcx.promoted_mir(uv.def);
+      if idx.as_usize() < pm.len() {
+        let pb = &pm[idx];
+        let mut inner: Vec<String> = Vec::new();
+        let mut visit = |o: &mir::Operand<'tcx>| {
+          if let mir::Operand::Constant(ic) = o {
+            let mut ip = vec![format!("\"ty\":{}", esc(&ty_str(ic.const_.ty())))];
+            if let mir::Const::Unevaluated(iuv, _) = ic.const_ {
+              if iuv.promoted.is_none() {
+                ip.push(format!("\"def\":{}", esc(&path_of(tcx, iuv.def))));
+              }
+            }
+            use rustc_middle::ty::TypeVisitableExt;
+            if !ic.const_.has_non_region_param() {
+              if let Ok(v) = ic.const_.eval(tcx, env, ic.span) {
+                if let Some(j) = const_value_json(tcx, ic.const_.ty(), v) {
+                  ip.push(format!("\"v\":{}", j));
+                }
+              }
+            }
+            inner.push(format!("{{{}}}", ip.join(",")));
+          }
+        };
+        for data in pb.basic_blocks.iter() {
+          for st in &data.statements {
+            if let mir::StatementKind::Assign(b) = &st.kind {
+              match &b.1 {
+                mir::Rvalue::Use(o, _) | mir::Rvalue::Cast(_, o, _) | mir::Rvalue::UnaryOp(_, o) | mir::Rvalue::Repeat(o, _) => visit(o),
+                mir::Rvalue::BinaryOp(_, ops) => {
+                  visit(&ops.0);
+                  visit(&ops.1);
+                }
+                mir::Rvalue::Aggregate(_, ops) => {
+                  for o in ops.iter() {
+                    visit(o);
+                  }
+                }
+                _ => {}
+              }
+            }
+          }
+        }
+        if !inner.is_empty() && inner.len() <= 16 {
+          parts.push(format!("\"pc\":{}", join(inner)));
+        }
+      }
+    }
+  }
   let has_params = {
     use rustc_middle::ty::TypeVisitableExt;
     c.const_.has_non_region_param()
